@@ -311,6 +311,13 @@ def run(ctx):
                             cn = C.stmt_node(ctx, fn, n)
                             if g.dominates(cn, rn):
                                 closed = n
+        if complete is None and closed is not None:
+            handed = _handed_out_writer(ctx, flow, fn, closed)
+            if handed is not None:
+                complete, enc_ok, why = handed
+                if complete is None:
+                    ctx.undecided("C17.2", fn, "the temporary file is handed out by the context manager %s; %s" % (fn.name, why), call, path=where)
+                    continue
         # a failed write must not be swallowed on the way to the replace
         swallowed = None
         for node in [x for x in (complete, closed) if x is not None]:
@@ -345,6 +352,54 @@ def run(ctx):
                        norm(call) + "  [encode-first]", path=where)
     from .dynscan import dynamic_features
     dynamic_features(ctx, "C17.0")
+
+
+def _handed_out_writer(ctx, flow, fn, open_call):
+    """fn is a @contextmanager generator that yields the file object it opened on the temporary path and replaces after the
+    with block: the write happens in the `with fn(...) as fd:` bodies of its callers.  Returns (write call, encode-first,
+    reason) - write call None when some caller's body is not understood - or None if fn is not of that shape."""
+    if not any("contextmanager" in norm(d) for d in fn.node.decorator_list):
+        return None
+    par = ctx.prog.parent.get(open_call)
+    if not (isinstance(par, ast.withitem) and isinstance(par.optional_vars, ast.Name)):
+        return None
+    fdname = par.optional_vars.id
+    withstmt = ctx.prog.parent.get(par)
+    yields = [y for y in own_nodes(fn.node) if isinstance(y, ast.Yield)]
+    if len(yields) != 1 or not (isinstance(yields[0].value, ast.Name) and yields[0].value.id == fdname) \
+            or not any(isinstance(st, ast.Expr) and st.value is yields[0] for st in withstmt.body):
+        return None
+    # an exception of the caller's body is re-raised at the yield: it must not be caught on the way to the replace
+    p_ = ctx.prog.parent.get(ctx.prog.parent.get(yields[0]))
+    while p_ is not None and p_ is not fn.node:
+        if isinstance(p_, ast.Try) and (p_.handlers or p_.finalbody):
+            return None, None, "its yield sits inside try/except/finally, which this rule does not follow"
+        p_ = ctx.prog.parent.get(p_)
+    sites = [(c, call) for c, call, _ in ctx.res.callsites_of(fn) if c is not None]
+    if not sites:
+        return None, None, "no caller found"
+    found = None
+    enc_first = True
+    for caller, call in sites:
+        wi = ctx.prog.parent.get(call)
+        if not (isinstance(wi, ast.withitem) and isinstance(wi.optional_vars, ast.Name)):
+            return None, None, "%s does not use it as `with ... as fd`" % caller.name
+        ws = ctx.prog.parent.get(wi)
+        ok = None
+        for st in ws.body:
+            if isinstance(st, ast.Expr) and isinstance(st.value, ast.Call) and isinstance(st.value.func, ast.Attribute) and st.value.func.attr == "write" \
+                    and isinstance(st.value.func.value, ast.Name) and st.value.func.value.id == wi.optional_vars.id and st.value.args:
+                data = flow.term(st.value.args[0], caller)
+                if _derives_from(data, "pyben.dumps") and all(t[0] in ("ext", "rec") for t in data):
+                    ok = st.value
+        if ok is None:
+            return None, None, "the with body in %s does not plainly write the complete pyben encoding" % caller.name
+        found = ok
+        g = C.cfg_of(caller)
+        encs = [n for n in ast.walk(caller.node) if isinstance(n, ast.Call) and C.is_ext_call(ctx, n, caller, ("pyben.dumps",))]
+        wn = C.stmt_node(ctx, caller, ws)
+        enc_first = enc_first and bool(encs) and all(g.dominates(C.stmt_node(ctx, caller, e_), wn) and C.stmt_node(ctx, caller, e_) is not wn for e_ in encs[:1])
+    return found, enc_first, ""
 
 
 _OLD_TAIL = '''    os.remove(metafile)
